@@ -1,6 +1,30 @@
 import Drivers.Epochs
-/-- `psidriver <model>`: run the line protocol of one model. -/
+import Drivers.Buffer
+import Drivers.Stim
+import Drivers.Queue
+import Drivers.Extract
+import Drivers.PData
+import Drivers.Reject
+import Drivers.Stages
+import Drivers.Edges
+import Drivers.Calib
+import Drivers.Cache
+import Drivers.Scope
+import Drivers.Conc
+/-- `psidriver <model>`: run the line protocol of one model (stdin -> stdout). -/
 def main (args : List String) : IO UInt32 := do
   match args with
   | ["epochs"] => Psi.Driver.Epochs.main; return 0
+  | ["buffer"] => Psi.Driver.Buffer.main; return 0
+  | ["stim"] => Psi.Driver.Stim.main; return 0
+  | ["queue"] => Psi.Driver.Queue.main; return 0
+  | ["extract"] => Psi.Driver.Extract.main; return 0
+  | ["pdata"] => Psi.Driver.PData.main; return 0
+  | ["reject"] => Psi.Driver.Reject.main; return 0
+  | ["stages"] => Psi.Driver.Stages.main; return 0
+  | ["edges"] => Psi.Driver.Edges.main; return 0
+  | ["calib"] => Psi.Driver.Calib.main; return 0
+  | ["cache"] => Psi.Driver.Cache.main; return 0
+  | ["scope"] => Psi.Driver.Scope.main; return 0
+  | ["conc"] => Psi.Driver.Conc.main; return 0
   | _ => IO.eprintln "usage: psidriver <model>"; return 2
